@@ -168,12 +168,18 @@ Qed.
 Lemma lit_parens : lit "()" = [ch_lpar; ch_rpar].
 Proof. reflexivity. Qed.
 
+Lemma pop_comma_snoc : forall x, pop_comma (x ++ [ch_comma]) = x.
+Proof. intros x. unfold pop_comma. rewrite last_last, N.eqb_refl. apply removelast_last. Qed.
+
+Lemma pop_comma_lpar : forall x, pop_comma (x ++ [ch_lpar]) = x ++ [ch_lpar].
+Proof. intros x. unfold pop_comma. rewrite last_last. reflexivity. Qed.
+
 Lemma func_apply_correct : forall strict iftab nm rs st buf,
-  nthN Tables.FTAB iftab = Some nm ->
+  nthN Tables.FTAB iftab = Some nm -> (iftab =? 255) = false ->
   func_apply strict iftab (length rs) (rev (offsets (length buf) rs) ++ st, buf ++ concat rs)
   = Ok (length buf :: st, buf ++ nm ++ [ch_lpar] ++ join_comma rs ++ [ch_rpar]).
 Proof.
-  intros strict iftab nm rs st buf Hnm. unfold func_apply.
+  intros strict iftab nm rs st buf Hnm H255. unfold func_apply.
   assert (Hl : (length (rev (offsets (length buf) rs) ++ st) <? length rs)%nat = false).
   { apply Nat.ltb_ge. rewrite app_length, rev_length, offsets_length. lia. }
   rewrite Hl. destruct rs as [|r rs].
@@ -188,10 +194,48 @@ Proof.
     remember (offsets (length buf) (r :: rs)) as offs eqn:Eo.
     destruct offs as [|start offs']; [cbn [offsets] in Eo; discriminate|].
     assert (start = length buf) by (cbn [offsets] in Eo; congruence). subst start.
-    rewrite Hex. rewrite split_off_app. cbn [obind fst snd]. rewrite Hnm. cbn [obind].
+    rewrite Hex. rewrite split_off_app. cbn [obind fst snd]. rewrite H255, Hnm. cbn [obind].
     rewrite HW by congruence. cbn [obind].
     rewrite join_trailing by congruence.
-    rewrite !app_assoc. rewrite removelast_last. rewrite <- !app_assoc. reflexivity.
+    rewrite !app_assoc. rewrite pop_comma_snoc. rewrite <- !app_assoc. reflexivity.
+Qed.
+
+(* tab 0x00FF: the first parameter is the function name *)
+Lemma func_apply_user : forall strict r0 rs st buf,
+  func_apply strict 255 (S (length rs)) (rev (offsets (length buf) (r0 :: rs)) ++ st, buf ++ concat (r0 :: rs))
+  = Ok (length buf :: st, buf ++ r0 ++ [ch_lpar] ++ join_comma rs ++ [ch_rpar]).
+Proof.
+  intros strict r0 rs st buf. unfold func_apply.
+  assert (Hl : (length (rev (offsets (length buf) (r0 :: rs)) ++ st) <? S (length rs))%nat = false).
+  { apply Nat.ltb_ge. rewrite app_length, rev_length, offsets_length. cbn [length]. lia. }
+  rewrite Hl.
+  replace (S (length rs)) with (length (rev (offsets (length buf) (r0 :: rs))))
+    by (rewrite rev_length, offsets_length; reflexivity).
+  rewrite firstn_app_len, skipn_app_len, rev_involutive.
+  pose proof (existsb_offsets (r0 :: rs) (length buf)) as Hex.
+  cbn [offsets] in *. rewrite Hex. rewrite split_off_app. cbn [obind fst snd].
+  change (255 =? 255) with true. cbn iota.
+  cbn [map app concat]. rewrite Nat.sub_diag.
+  destruct rs as [|r1 rs'].
+  - (* no argument besides the name *)
+    cbn [offsets map app concat]. rewrite app_nil_r.
+    unfold slice_w. cbn [Nat.leb andb]. rewrite Nat.leb_refl. cbn [obind skipn].
+    rewrite Nat.sub_0_r, firstn_all. cbn [windows_join obind].
+    rewrite !app_assoc. rewrite pop_comma_lpar. rewrite <- !app_assoc. reflexivity.
+  - pose proof (@windows_join_correct (r1 :: rs') r0 (length buf) (buf ++ r0 ++ [ch_lpar])) as HW.
+    remember (r1 :: rs') as rs eqn:Ers.
+    destruct (map (fun o => (o - length buf)%nat) (offsets (length buf + length r0) rs)) as [|w1 tl] eqn:Em.
+    { subst rs. cbn [offsets map] in Em. discriminate. }
+    assert (Hw1 : w1 = length r0).
+    { subst rs. cbn [offsets map] in Em. inversion Em. lia. }
+    cbn [app]. unfold slice_w. subst w1. cbn [Nat.leb].
+    assert (Hle : (length r0 <=? length (r0 ++ concat rs))%nat = true)
+      by (apply Nat.leb_le; rewrite app_length; lia).
+    rewrite Hle. cbn [andb obind skipn]. rewrite Nat.sub_0_r, firstn_app_len.
+    change (length r0 :: tl ++ [length (r0 ++ concat rs)]) with ((length r0 :: tl) ++ [length (r0 ++ concat rs)]).
+    rewrite HW by (subst rs; congruence). cbn [obind].
+    rewrite join_trailing by (subst rs; congruence).
+    rewrite !app_assoc. rewrite pop_comma_snoc. rewrite <- !app_assoc. reflexivity.
 Qed.
 
 (* ------------------------------------------------------------------ strings *)
@@ -280,6 +324,33 @@ Proof.
   induction s as [|c s IH]; [reflexivity|].
   change (flat_map (le 2) (c :: s)) with (le 2 c ++ flat_map (le 2) s).
   rewrite app_length, IH, le_length. cbn [length]. lia.
+Qed.
+
+(* ------------------------------------------------------------------ sheet names *)
+Lemma word_char_plain : forall c, word_char c = plain_char c.
+Proof.
+  intros c. unfold word_char, word_start, plain_char.
+  destruct (is_ascii_alpha c), (is_ascii_digit c), (c =? 95), (c =? 46), (128 <=? c); reflexivity.
+Qed.
+
+Lemma forallb_ext' : forall (A : Type) (f g : A -> bool), (forall x, f x = g x) ->
+  forall l, forallb f l = forallb g l.
+Proof. intros A f g H l. induction l as [|x l IH]; [reflexivity|]. cbn [forallb]. rewrite H, IH. reflexivity. Qed.
+
+(* the code's quoting rule is the grammar's *)
+Lemma quote_sheet_name_spec : forall s, quote_sheet_name s = sheet_text s.
+Proof.
+  intros [|c t]; [reflexivity|].
+  unfold quote_sheet_name, sheet_text, bare_sheet. cbn [orb forallb].
+  rewrite (forallb_ext' word_char plain_char word_char_plain t).
+  remember (forallb plain_char t) as P eqn:EP. clear EP.
+  unfold plain_char, word_start, is_ascii_alpha, is_ascii_digit.
+  destruct (c =? 46) eqn:E46; [apply N.eqb_eq in E46; subst c; destruct P; reflexivity|].
+  destruct (c =? 95) eqn:E95; [apply N.eqb_eq in E95; subst c; destruct P; reflexivity|].
+  apply N.eqb_neq in E46, E95.
+  destruct P;
+    destruct (48 <=? c) eqn:A, (c <=? 57) eqn:B, (65 <=? c) eqn:C, (c <=? 90) eqn:D,
+             (97 <=? c) eqn:F, (c <=? 122) eqn:G, (128 <=? c) eqn:H; cbn; try reflexivity; exfalso; lia.
 Qed.
 
 (* ------------------------------------------------------------------ small case analyses *)
@@ -476,33 +547,62 @@ Proof.
   repeat (apply orb_prop in H; destruct H as [H|H]); apply N.eqb_eq in H; subst; reflexivity.
 Qed.
 
+Lemma xls_step_attrchoose : forall offs rest s,
+  1 <= N.of_nat (length offs) -> N.of_nat (length offs) <= 65536 ->
+  xls_step show_f64 env 0x19 (0x04 :: le 2 (N.of_nat (length offs) - 1) ++ flat_map (le 2) offs ++ rest) s = Ok (rest, s).
+Proof.
+  intros offs rest s H1 H2.
+  assert (Hfl : length (flat_map (le 2) offs) = (2 * length offs)%nat) by apply flat_le2_length.
+  remember (flat_map (le 2) offs) as fl eqn:Efl. clear Efl.
+  unfold xls_step, xls_attr.
+  cbn [byte_at skipn obind drop le app length Nat.ltb Nat.leb u16_at].
+  rewrite le2_eq by lia. cbn [obind].
+  replace (2 + 2 * (N.to_nat (N.of_nat (length offs) - 1) + 1))%nat with (2 + length fl)%nat by lia.
+  rewrite drop_err_cons2. reflexivity.
+Qed.
+
 Lemma xls_step_funcvar : forall k iftab rs rest st buf nm,
-  nthN Tables.FTAB iftab = Some nm -> iftab < 65536 -> N.of_nat (length rs) < 256 ->
+  nthN Tables.FTAB iftab = Some nm -> (iftab =? 255) = false -> iftab < 65536 -> N.of_nat (length rs) < 256 ->
   xls_step show_f64 env (cls_ptg 0x22 0x42 0x62 k) (N.of_nat (length rs) :: le 2 iftab ++ rest)
     (rev (offsets (length buf) rs) ++ st, buf ++ concat rs)
   = Ok (rest, (length buf :: st, buf ++ nm ++ [ch_lpar] ++ join_comma rs ++ [ch_rpar])).
 Proof.
-  intros k iftab rs rest st buf nm Hnm Hi Hl.
+  intros k iftab rs rest st buf nm Hnm H255 Hi Hl.
   destruct k; cbn [cls_ptg]; unfold xls_step, arm_func, func_header;
     cbn [le app u16_at byte_at skipn obind drop]; rewrite le2_eq by assumption;
-    cbn [obind fst snd]; rewrite Nat2N.id; rewrite (@func_apply_correct false _ _ _ _ _ Hnm);
+    cbn [obind fst snd]; rewrite Nat2N.id; rewrite (@func_apply_correct false _ _ _ _ _ Hnm H255);
+    reflexivity.
+Qed.
+
+(* PtgFuncVar with tab 0x00FF: name(arguments) *)
+Lemma xls_step_funcvar_user : forall k r0 rs rest st buf,
+  N.of_nat (S (length rs)) < 256 ->
+  xls_step show_f64 env (cls_ptg 0x22 0x42 0x62 k) (N.of_nat (S (length rs)) :: le 2 255 ++ rest)
+    (rev (offsets (length buf) (r0 :: rs)) ++ st, buf ++ concat (r0 :: rs))
+  = Ok (rest, (length buf :: st, buf ++ r0 ++ [ch_lpar] ++ join_comma rs ++ [ch_rpar])).
+Proof.
+  intros k r0 rs rest st buf Hl.
+  destruct k; cbn [cls_ptg]; unfold xls_step, arm_func, func_header;
+    cbn [le app u16_at byte_at skipn obind drop];
+    change (255 mod 256 + 256 * (255 / 256 mod 256)) with 255;
+    cbn [obind fst snd]; rewrite Nat2N.id; rewrite (func_apply_user false r0 rs st buf);
     reflexivity.
 Qed.
 
 Lemma xls_step_func : forall k iftab rs rest st buf nm,
-  nthN Tables.FTAB iftab = Some nm -> iftab < Tables.FTAB_LEN ->
+  nthN Tables.FTAB iftab = Some nm -> (iftab =? 255) = false -> iftab < Tables.FTAB_LEN ->
   nthN Tables.FTAB_ARGC iftab = Some (N.of_nat (length rs)) ->
   xls_step show_f64 env (cls_ptg 0x21 0x41 0x61 k) (le 2 iftab ++ rest)
     (rev (offsets (length buf) rs) ++ st, buf ++ concat rs)
   = Ok (rest, (length buf :: st, buf ++ nm ++ [ch_lpar] ++ join_comma rs ++ [ch_rpar])).
 Proof.
-  intros k iftab rs rest st buf nm Hnm Hi Ha.
+  intros k iftab rs rest st buf nm Hnm H255 Hi Ha.
   assert (Hi' : iftab < 65536) by (change Tables.FTAB_LEN with 485 in Hi; lia).
   assert (E : (Tables.FTAB_LEN <=? iftab) = false) by (apply N.leb_gt; exact Hi).
   destruct k; cbn [cls_ptg]; unfold xls_step, arm_func, func_header;
     cbn [le app u16_at skipn obind]; rewrite le2_eq by assumption; rewrite E;
     cbn [drop obind]; rewrite Ha; cbn [of_option obind fst snd]; rewrite Nat2N.id;
-    rewrite (@func_apply_correct false _ _ _ _ _ Hnm); reflexivity.
+    rewrite (@func_apply_correct false _ _ _ _ _ Hnm H255); reflexivity.
 Qed.
 
 End XlsTokens.
@@ -528,6 +628,8 @@ Hypothesis HFunc : forall k i args, Forall P args -> P (EFunc k i args).
 Hypothesis HFuncVar : forall k i args, Forall P args -> P (EFuncVar k i args).
 Hypothesis HSum : forall a, P a -> P (ESum a).
 Hypothesis HAttr : forall e w a, P a -> P (EAttrSkip e w a).
+Hypothesis HPost : forall e w a, P a -> P (EAttrPost e w a).
+Hypothesis HChoose : forall offs a, P a -> P (EAttrChoose offs a).
 
 Fixpoint expr_ind' (e : expr) : P e :=
   let fix go (l : list expr) : Forall P l :=
@@ -554,6 +656,8 @@ Fixpoint expr_ind' (e : expr) : P e :=
   | EFuncVar k i args => HFuncVar k i (go args)
   | ESum a => HSum (expr_ind' a)
   | EAttrSkip e w a => HAttr e w (expr_ind' a)
+  | EAttrPost e w a => HPost e w (expr_ind' a)
+  | EAttrChoose offs a => HChoose offs (expr_ind' a)
   end.
 End ExprInd.
 
@@ -685,7 +789,8 @@ Proof.
     rewrite <- app_assoc. reflexivity.
   - (* EFunc *)
     destruct (nthN FTAB_ARGC_REF i) as [n|] eqn:Hn; [|discriminate].
-    apply andb_prop in Hwf. destruct Hwf as [Hwf Hargs]. apply andb_prop in Hwf. destruct Hwf as [Hcnt Hi].
+    apply andb_prop in Hwf. destruct Hwf as [Hwf Hargs]. apply andb_prop in Hwf. destruct Hwf as [Hwf H255].
+    apply andb_prop in Hwf. destruct Hwf as [Hcnt Hi]. apply negb_true_iff in H255.
     apply N.eqb_eq in Hcnt. apply N.ltb_lt in Hi. subst n.
     assert (HG : Forall good_xls args).
     { apply forallb_Forall in Hargs. rewrite Forall_forall in *. intros a Hin. apply H; auto. }
@@ -699,10 +804,12 @@ Proof.
     rewrite (@xls_step_func show_f64 env k i (map rend args) rest st buf (fname i)).
     + unfold render_xls. cbn [render obind fst snd]. reflexivity.
     + apply fname_some. exact Hi.
+    + exact H255.
     + rewrite EL. exact Hi.
     + rewrite EA. exact Hn.
   - (* EFuncVar *)
-    apply andb_prop in Hwf. destruct Hwf as [Hwf Hargs]. apply andb_prop in Hwf. destruct Hwf as [Hi Hcnt].
+    apply andb_prop in Hwf. destruct Hwf as [Hwf Hargs]. apply andb_prop in Hwf. destruct Hwf as [Hwf Husr].
+    apply andb_prop in Hwf. destruct Hwf as [Hi Hcnt].
     apply N.ltb_lt in Hcnt, Hi.
     assert (HG : Forall good_xls args).
     { apply forallb_Forall in Hargs. rewrite Forall_forall in *. intros a Hin. apply H; auto. }
@@ -711,12 +818,21 @@ Proof.
     replace (S (fold_right (fun a acc => ntok a + acc) 0 args) + f)%nat
       with (fold_right (fun a acc => ntok a + acc) 0 args + S f)%nat by lia.
     rewrite good_list_xls by exact HG. cbn [app]. rewrite xls_run_S by len_tac.
-    rewrite <- (map_length rend args) in *.
-    rewrite (@xls_step_funcvar show_f64 env k i (map rend args) rest st buf (fname i)).
-    + unfold render_xls. cbn [render obind fst snd]. reflexivity.
-    + apply fname_some. exact Hi.
-    + change FTAB_LEN_REF with 485 in Hi. lia.
-    + lia.
+    unfold user_fn_ok in Husr. destruct (i =? 255) eqn:E255.
+    + (* tab 0x00FF: the first parameter is the function name *)
+      apply N.eqb_eq in E255. subst i.
+      destruct args as [|a0 args']; [discriminate|]. clear Husr.
+      cbn [map length]. cbn [length] in Hcnt.
+      rewrite <- (map_length rend args') in *.
+      rewrite (@xls_step_funcvar_user show_f64 env k (rend a0) (map rend args') rest st buf) by lia.
+      unfold render_xls. cbn [render obind fst snd map]. unfold render_call. cbn [N.eqb Pos.eqb]. reflexivity.
+    + rewrite <- (map_length rend args) in *.
+      rewrite (@xls_step_funcvar show_f64 env k i (map rend args) rest st buf (fname i)).
+      * unfold render_xls. cbn [render obind fst snd]. unfold render_call. rewrite E255. reflexivity.
+      * apply fname_some. exact Hi.
+      * exact E255.
+      * change FTAB_LEN_REF with 485 in Hi. lia.
+      * lia.
   - (* ESum *)
     specialize (IHe Hwf). unfold encode_xls. cbn [ntok encode]. fold encode_xls.
     rewrite <- app_assoc. replace (S (ntok e) + f)%nat with (ntok e + S f)%nat by lia.
@@ -729,6 +845,20 @@ Proof.
     specialize (IHe Ha). unfold encode_xls. cbn [ntok encode]. fold encode_xls.
     cbn [app]. rewrite <- app_assoc. cbn [Nat.add]. rewrite xls_run_S by len_tac.
     rewrite xls_step_attrskip by exact He. cbn [obind fst snd]. rewrite IHe.
+    unfold render_xls. cbn [render]. reflexivity.
+  - (* EAttrPost *)
+    apply andb_prop in Hwf. destruct Hwf as [Hwf Ha]. apply andb_prop in Hwf. destruct Hwf as [He Hw].
+    specialize (IHe Ha). unfold encode_xls. cbn [ntok encode]. fold encode_xls.
+    rewrite <- app_assoc. replace (S (ntok e0) + f)%nat with (ntok e0 + S f)%nat by lia.
+    rewrite IHe. cbn [app]. rewrite xls_run_S by len_tac.
+    rewrite xls_step_attrskip by exact He. cbn [obind fst snd].
+    unfold render_xls. cbn [render]. reflexivity.
+  - (* EAttrChoose *)
+    apply andb_prop in Hwf. destruct Hwf as [Hwf Ha]. apply andb_prop in Hwf. destruct Hwf as [Hwf Ho].
+    apply andb_prop in Hwf. destruct Hwf as [H1 H2]. apply N.leb_le in H1, H2.
+    specialize (IHe Ha). unfold encode_xls. cbn [ntok encode]. fold encode_xls.
+    cbn [app]. rewrite <- !app_assoc. cbn [Nat.add]. rewrite xls_run_S by len_tac.
+    rewrite xls_step_attrchoose by assumption. cbn [obind fst snd]. rewrite IHe.
     unfold render_xls. cbn [render]. reflexivity.
 Qed.
 
@@ -908,33 +1038,62 @@ Proof.
   repeat (apply orb_prop in H; destruct H as [H|H]); apply N.eqb_eq in H; subst; reflexivity.
 Qed.
 
+Lemma xlsb_step_attrchoose : forall offs rest s,
+  1 <= N.of_nat (length offs) -> N.of_nat (length offs) <= 65536 ->
+  step 0x19 (0x04 :: le 2 (N.of_nat (length offs) - 1) ++ flat_map (le 2) offs ++ rest) s = Ok (rest, s).
+Proof.
+  intros offs rest s H1 H2.
+  assert (Hfl : length (flat_map (le 2) offs) = (2 * length offs)%nat) by apply flat_le2_length.
+  remember (flat_map (le 2) offs) as fl eqn:Efl. clear Efl.
+  unfold xlsb_step, xlsb_attr.
+  cbn [byte_at skipn obind drop le app length Nat.ltb Nat.leb u16_at].
+  rewrite le2_eq by lia. cbn [obind].
+  replace (2 + 2 * (N.to_nat (N.of_nat (length offs) - 1) + 1))%nat with (2 + length fl)%nat by lia.
+  rewrite drop_err_cons2. reflexivity.
+Qed.
+
 Lemma xlsb_step_funcvar : forall k iftab rs rest st buf nm,
-  nthN Tables.FTAB iftab = Some nm -> iftab < 65536 -> N.of_nat (length rs) < 256 ->
+  nthN Tables.FTAB iftab = Some nm -> (iftab =? 255) = false -> iftab < 65536 -> N.of_nat (length rs) < 256 ->
   step (cls_ptg 0x22 0x42 0x62 k) (N.of_nat (length rs) :: le 2 iftab ++ rest)
     (rev (offsets (length buf) rs) ++ st, buf ++ concat rs)
   = Ok (rest, (length buf :: st, buf ++ nm ++ [ch_lpar] ++ join_comma rs ++ [ch_rpar])).
 Proof.
-  intros k iftab rs rest st buf nm Hnm Hi Hl.
+  intros k iftab rs rest st buf nm Hnm H255 Hi Hl.
   destruct k; cbn [cls_ptg]; unfold xlsb_step, arm_func, func_header;
     cbn [le app u16_at byte_at skipn obind drop]; rewrite le2_eq by assumption;
-    cbn [obind fst snd]; rewrite Nat2N.id; rewrite (@func_apply_correct true _ _ _ _ _ Hnm);
+    cbn [obind fst snd]; rewrite Nat2N.id; rewrite (@func_apply_correct true _ _ _ _ _ Hnm H255);
+    reflexivity.
+Qed.
+
+(* PtgFuncVar with tab 0x00FF: name(arguments) *)
+Lemma xlsb_step_funcvar_user : forall k r0 rs rest st buf,
+  N.of_nat (S (length rs)) < 256 ->
+  step (cls_ptg 0x22 0x42 0x62 k) (N.of_nat (S (length rs)) :: le 2 255 ++ rest)
+    (rev (offsets (length buf) (r0 :: rs)) ++ st, buf ++ concat (r0 :: rs))
+  = Ok (rest, (length buf :: st, buf ++ r0 ++ [ch_lpar] ++ join_comma rs ++ [ch_rpar])).
+Proof.
+  intros k r0 rs rest st buf Hl.
+  destruct k; cbn [cls_ptg]; unfold xlsb_step, arm_func, func_header;
+    cbn [le app u16_at byte_at skipn obind drop];
+    change (255 mod 256 + 256 * (255 / 256 mod 256)) with 255;
+    cbn [obind fst snd]; rewrite Nat2N.id; rewrite (func_apply_user true r0 rs st buf);
     reflexivity.
 Qed.
 
 Lemma xlsb_step_func : forall k iftab rs rest st buf nm,
-  nthN Tables.FTAB iftab = Some nm -> iftab < Tables.FTAB_LEN ->
+  nthN Tables.FTAB iftab = Some nm -> (iftab =? 255) = false -> iftab < Tables.FTAB_LEN ->
   nthN Tables.FTAB_ARGC iftab = Some (N.of_nat (length rs)) ->
   step (cls_ptg 0x21 0x41 0x61 k) (le 2 iftab ++ rest)
     (rev (offsets (length buf) rs) ++ st, buf ++ concat rs)
   = Ok (rest, (length buf :: st, buf ++ nm ++ [ch_lpar] ++ join_comma rs ++ [ch_rpar])).
 Proof.
-  intros k iftab rs rest st buf nm Hnm Hi Ha.
+  intros k iftab rs rest st buf nm Hnm H255 Hi Ha.
   assert (Hi' : iftab < 65536) by (change Tables.FTAB_LEN with 485 in Hi; lia).
   assert (E : (Tables.FTAB_LEN <=? iftab) = false) by (apply N.leb_gt; exact Hi).
   destruct k; cbn [cls_ptg]; unfold xlsb_step, arm_func, func_header;
     cbn [le app u16_at skipn obind]; rewrite le2_eq by assumption; rewrite E;
     cbn [drop obind]; rewrite Ha; cbn [of_option obind fst snd]; rewrite Nat2N.id;
-    rewrite (@func_apply_correct true _ _ _ _ _ Hnm); reflexivity.
+    rewrite (@func_apply_correct true _ _ _ _ _ Hnm H255); reflexivity.
 Qed.
 
 End XlsbTokens.
@@ -1034,7 +1193,8 @@ Proof.
     rewrite <- app_assoc. reflexivity.
   - (* EFunc *)
     destruct (nthN FTAB_ARGC_REF i) as [n|] eqn:Hn; [|discriminate].
-    apply andb_prop in Hwf. destruct Hwf as [Hwf Hargs]. apply andb_prop in Hwf. destruct Hwf as [Hcnt Hi].
+    apply andb_prop in Hwf. destruct Hwf as [Hwf Hargs]. apply andb_prop in Hwf. destruct Hwf as [Hwf H255].
+    apply andb_prop in Hwf. destruct Hwf as [Hcnt Hi]. apply negb_true_iff in H255.
     apply N.eqb_eq in Hcnt. apply N.ltb_lt in Hi. subst n.
     assert (HG : Forall good_xlsb args).
     { apply forallb_Forall in Hargs. rewrite Forall_forall in *. intros a Hin. apply H; auto. }
@@ -1048,10 +1208,12 @@ Proof.
     rewrite (@xlsb_step_func show_f64 env _ k i (map rend args) rest st buf (fname i)).
     + unfold render_xlsb. cbn [render obind fst snd]. reflexivity.
     + apply fname_some. exact Hi.
+    + exact H255.
     + rewrite EL. exact Hi.
     + rewrite EA. exact Hn.
   - (* EFuncVar *)
-    apply andb_prop in Hwf. destruct Hwf as [Hwf Hargs]. apply andb_prop in Hwf. destruct Hwf as [Hi Hcnt].
+    apply andb_prop in Hwf. destruct Hwf as [Hwf Hargs]. apply andb_prop in Hwf. destruct Hwf as [Hwf Husr].
+    apply andb_prop in Hwf. destruct Hwf as [Hi Hcnt].
     apply N.ltb_lt in Hcnt, Hi.
     assert (HG : Forall good_xlsb args).
     { apply forallb_Forall in Hargs. rewrite Forall_forall in *. intros a Hin. apply H; auto. }
@@ -1060,12 +1222,21 @@ Proof.
     replace (S (fold_right (fun a acc => ntok a + acc) 0 args) + f)%nat
       with (fold_right (fun a acc => ntok a + acc) 0 args + S f)%nat by lia.
     rewrite good_list_xlsb by exact HG. cbn [app]. rewrite xlsb_run_S by len_tac.
-    rewrite <- (map_length rend args) in *.
-    rewrite (@xlsb_step_funcvar show_f64 env _ k i (map rend args) rest st buf (fname i)).
-    + unfold render_xlsb. cbn [render obind fst snd]. reflexivity.
-    + apply fname_some. exact Hi.
-    + change FTAB_LEN_REF with 485 in Hi. lia.
-    + lia.
+    unfold user_fn_ok in Husr. destruct (i =? 255) eqn:E255.
+    + (* tab 0x00FF: the first parameter is the function name *)
+      apply N.eqb_eq in E255. subst i.
+      destruct args as [|a0 args']; [discriminate|]. clear Husr.
+      cbn [map length]. cbn [length] in Hcnt.
+      rewrite <- (map_length rend args') in *.
+      rewrite (@xlsb_step_funcvar_user show_f64 env _ k (rend a0) (map rend args') rest st buf) by lia.
+      unfold render_xlsb. cbn [render obind fst snd map]. unfold render_call. cbn [N.eqb Pos.eqb]. reflexivity.
+    + rewrite <- (map_length rend args) in *.
+      rewrite (@xlsb_step_funcvar show_f64 env _ k i (map rend args) rest st buf (fname i)).
+      * unfold render_xlsb. cbn [render obind fst snd]. unfold render_call. rewrite E255. reflexivity.
+      * apply fname_some. exact Hi.
+      * exact E255.
+      * change FTAB_LEN_REF with 485 in Hi. lia.
+      * lia.
   - (* ESum *)
     specialize (IHe Hwf). unfold encode_xlsb. cbn [ntok encode]. fold encode_xlsb.
     rewrite <- app_assoc. replace (S (ntok e) + f)%nat with (ntok e + S f)%nat by lia.
@@ -1078,6 +1249,20 @@ Proof.
     specialize (IHe Ha). unfold encode_xlsb. cbn [ntok encode]. fold encode_xlsb.
     cbn [app]. rewrite <- app_assoc. cbn [Nat.add]. rewrite xlsb_run_S by len_tac.
     rewrite xlsb_step_attrskip by exact He. cbn [obind fst snd]. rewrite IHe.
+    unfold render_xlsb. cbn [render]. reflexivity.
+  - (* EAttrPost *)
+    apply andb_prop in Hwf. destruct Hwf as [Hwf Ha]. apply andb_prop in Hwf. destruct Hwf as [He Hw].
+    specialize (IHe Ha). unfold encode_xlsb. cbn [ntok encode]. fold encode_xlsb.
+    rewrite <- app_assoc. replace (S (ntok e0) + f)%nat with (ntok e0 + S f)%nat by lia.
+    rewrite IHe. cbn [app]. rewrite xlsb_run_S by len_tac.
+    rewrite xlsb_step_attrskip by exact He. cbn [obind fst snd].
+    unfold render_xlsb. cbn [render]. reflexivity.
+  - (* EAttrChoose *)
+    apply andb_prop in Hwf. destruct Hwf as [Hwf Ha]. apply andb_prop in Hwf. destruct Hwf as [Hwf Ho].
+    apply andb_prop in Hwf. destruct Hwf as [H1 H2]. apply N.leb_le in H1, H2.
+    specialize (IHe Ha). unfold encode_xlsb. cbn [ntok encode]. fold encode_xlsb.
+    cbn [app]. rewrite <- !app_assoc. cbn [Nat.add]. rewrite xlsb_run_S by len_tac.
+    rewrite xlsb_step_attrchoose by assumption. cbn [obind fst snd]. rewrite IHe.
     unfold render_xlsb. cbn [render]. reflexivity.
 Qed.
 
@@ -1099,6 +1284,104 @@ Proof.
   destruct (S (length (encode_xlsb e)) - ntok e)%nat as [|f'] eqn:Ef; [lia|].
   cbn [xlsb_run obind fst snd app xlsb_finish]. reflexivity.
 Qed.
+
+(* ================================================================== CHOOSE, user-defined functions *)
+Lemma render_e_choose : forall show_f64 sh nm k idx offs vals,
+  render show_f64 sh nm (e_choose k idx offs vals)
+  = lit "CHOOSE(" ++ join_comma (render show_f64 sh nm idx :: map (fun vg => render show_f64 sh nm (fst vg)) vals)
+    ++ [ch_rpar].
+Proof.
+  intros show_f64 sh nm k idx offs vals. unfold e_choose. cbn [render]. unfold render_call.
+  change (100 =? 255) with false. cbn iota.
+  change (fname 100) with (lit "CHOOSE"). cbn [map].
+  assert (E : map (render show_f64 sh nm)
+                match vals with
+                | [] => []
+                | (v, g) :: t0 => EAttrPost 8 g (EAttrChoose offs v)
+                                  :: map (fun vg => EAttrPost 8 (snd vg) (fst vg)) t0
+                end = map (fun vg => render show_f64 sh nm (fst vg)) vals).
+  { destruct vals as [|[v g] t0]; [reflexivity|]. cbn [map render fst]. f_equal.
+    rewrite map_map. apply map_ext. intros [v' g']. reflexivity. }
+  rewrite E. reflexivity.
+Qed.
+
+(* CHOOSE with any number of values, jump table and goto words as Excel writes them *)
+Theorem choose_correct_xlsb : forall show_f64 env k idx offs vals,
+  wf_xlsb env (e_choose k idx offs vals) = true ->
+  xlsb_parse_formula show_f64 env (encode_xlsb (e_choose k idx offs vals))
+  = Ok (lit "CHOOSE(" ++ join_comma (render_xlsb show_f64 env idx ::
+                                      map (fun vg => render_xlsb show_f64 env (fst vg)) vals) ++ [ch_rpar]).
+Proof.
+  intros show_f64 env k idx offs vals Hwf. rewrite (rpn_correct_xlsb show_f64 env _ Hwf).
+  unfold render_xlsb. rewrite render_e_choose. reflexivity.
+Qed.
+
+Theorem choose_correct_xls : forall show_f64 env k idx offs vals,
+  wf_xls env (e_choose k idx offs vals) = true ->
+  N.of_nat (length (encode_xls (e_choose k idx offs vals))) < 65536 ->
+  xls_parse_formula show_f64 env (frame_xls (encode_xls (e_choose k idx offs vals)))
+  = Ok (lit "CHOOSE(" ++ join_comma (render_xls show_f64 env idx ::
+                                      map (fun vg => render_xls show_f64 env (fst vg)) vals) ++ [ch_rpar]).
+Proof.
+  intros show_f64 env k idx offs vals Hwf Hlen. rewrite (rpn_correct_xls show_f64 env _ Hwf Hlen).
+  unfold render_xls. rewrite render_e_choose. reflexivity.
+Qed.
+
+(* a call of a user-defined / future function: PtgName, the arguments, PtgFuncVar(tab 0x00FF) *)
+Theorem user_function_correct_xlsb : forall show_f64 env k kn idx args,
+  wf_xlsb env (EFuncVar k 255 (EName kn idx :: args)) = true ->
+  xlsb_parse_formula show_f64 env (encode_xlsb (EFuncVar k 255 (EName kn idx :: args)))
+  = Ok (spec_name (be_names env) idx ++ [ch_lpar] ++ join_comma (map (render_xlsb show_f64 env) args) ++ [ch_rpar]).
+Proof. intros show_f64 env k kn idx args Hwf. rewrite (rpn_correct_xlsb show_f64 env _ Hwf). reflexivity. Qed.
+
+Theorem user_function_correct_xls : forall show_f64 env k kn idx args,
+  wf_xls env (EFuncVar k 255 (EName kn idx :: args)) = true ->
+  N.of_nat (length (encode_xls (EFuncVar k 255 (EName kn idx :: args)))) < 65536 ->
+  xls_parse_formula show_f64 env (frame_xls (encode_xls (EFuncVar k 255 (EName kn idx :: args))))
+  = Ok (spec_name (xe_names env) idx ++ [ch_lpar] ++ join_comma (map (render_xls show_f64 env) args) ++ [ch_rpar]).
+Proof. intros show_f64 env k kn idx args Hwf Hlen. rewrite (rpn_correct_xls show_f64 env _ Hwf Hlen). reflexivity. Qed.
+
+(* witnesses of the repaired defects (audit E1-E4, G1, white space), computed:
+   - issue_182.xlsb!A2: rgce 23 01000000 | 17 "A" | 19 40 00 01 | 17 "b" | 42 03 ff00
+   - CHOOSE with 1, 2, 3, 4 and 10 values, both formats (xlsb skipped a fixed 10 bytes: right for 3 only)
+   - MMULT / LENB / CONVERT as PtgFunc with 2 / 1 / 3 parameters
+   - a formula that starts with PtgAttrSpace, and one with white space in front of the second operand *)
+Fixpoint leqb (a b : list N) : bool :=
+  match a, b with
+  | [], [] => true
+  | x :: a', y :: b' => (x =? y) && leqb a' b'
+  | _, _ => false
+  end.
+Definition ex_choose (n : nat) : expr :=
+  e_choose CVal (EInt 2) (map (fun i => N.of_nat (4 * i)) (seq 0 (S n)))
+    (map (fun i => (EInt (N.of_nat (10 + i)), N.of_nat (4 * (n - i)))) (seq 0 n)).
+Definition ex_choose_text (n : nat) : list N :=
+  lit "CHOOSE(2" ++ flat_map (fun i => ch_comma :: dec (N.of_nat (10 + i))) (seq 0 n) ++ [ch_rpar].
+
+Example repaired_witnesses :
+  let xenv := {| xe_sheets := []; xe_names := [lit "_xlfn.CONCAT"]; xe_xtis := [] |} in
+  let benv := {| be_sheets := []; be_names := [lit "_xlfn.CONCAT"] |} in
+  let sf := fun _ : N => @nil N in
+  xlsb_parse_formula sf benv [0x23; 1; 0; 0; 0; 0x17; 1; 0; 65; 0; 0x19; 0x40; 0; 1; 0x17; 1; 0; 98; 0; 0x42; 3; 255; 0]
+    = Ok (lit "_xlfn.CONCAT(""A"",""b"")") /\
+  encode_xlsb (EFuncVar CVal 255 [EName CRef 1; EStr false [65]; EAttrSkip 0x40 256 (EStr false [98])])
+    = [0x23; 1; 0; 0; 0; 0x17; 1; 0; 65; 0; 0x19; 0x40; 0; 1; 0x17; 1; 0; 98; 0; 0x42; 3; 255; 0] /\
+  forallb (fun n => match xlsb_parse_formula sf benv (encode_xlsb (ex_choose n)) with
+                    | Ok s => leqb s (ex_choose_text n) | _ => false end
+                    && wf_xlsb benv (ex_choose n)
+                    && match xls_parse_formula sf xenv (frame_xls (encode_xls (ex_choose n))) with
+                       | Ok s => leqb s (ex_choose_text n) | _ => false end
+                    && wf_xls xenv (ex_choose n)) [1; 2; 3; 4; 10]%nat = true /\
+  encode_xlsb (ex_choose 2)
+    = [0x1E; 2; 0; 0x19; 0x04; 2; 0; 0; 0; 4; 0; 8; 0; 0x1E; 10; 0; 0x19; 0x08; 8; 0;
+       0x1E; 11; 0; 0x19; 0x08; 4; 0; 0x42; 3; 100; 0] /\
+  xls_parse_formula sf xenv (frame_xls (encode_xls (EFunc CVal 165 [EInt 1; EInt 2]))) = Ok (lit "MMULT(1,2)") /\
+  xlsb_parse_formula sf benv (encode_xlsb (EFunc CVal 211 [EStr false [97]])) = Ok (lit "LENB(""a"")") /\
+  xlsb_parse_formula sf benv (encode_xlsb (EFunc CVal 468 [EInt 1; EStr false [109]; EStr false [102]]))
+    = Ok (lit "CONVERT(1,""m"",""f"")") /\
+  xls_parse_formula sf xenv (frame_xls (encode_xls (EAttrSkip 0x40 0x0100 (EBin 3 (EInt 1) (EAttrSkip 0x40 0x0200 (EInt 2))))))
+    = Ok (lit "1+2").
+Proof. vm_compute. repeat split. Qed.
 
 (* ================================================================== former known classes *)
 (* K_STR_WIDE (F21, fixed by a3d91ee) and K_STR_QUOTE (fixed by 6ef7f34): their witnesses are now
